@@ -45,7 +45,7 @@ def main():
          "engines": [{"name": "coq+correspondence", "path": "/verif/check", "serves_properties": sorted(T),
                       "kind_free_text": "Coq 8.16 development under /verif/coq (Gen/ regenerated from /repo by translate/py2v.py on every run), extracted OCaml drivers, Python correspondence harness under /verif/harness"}],
          "checks": checks, "not_applicable": na,
-         "notes": "every check rebuilds from /repo's working tree: rsync to a scratch dir, Cython extensions rebuilt from the current .pyx, Gen/*.v regenerated, full coq_makefile .vo build, extraction + ocamlfind. known_findings.json lists the repaired defects (fixed) and the known findings K01, K02, K03."}
+         "notes": "every check rebuilds from /repo's working tree: rsync to a scratch dir, Cython extensions rebuilt from the current .pyx, Gen/*.v regenerated, full coq_makefile .vo build, extraction + ocamlfind. known_findings.json lists the repaired defects (fixed) and the known findings K01, K02 (K03 was repaired by F49)."}
     json.dump(m, open("/verif/MANIFEST.json", "w"), indent=1)
     print(len(checks), "checks,", len(na), "not yet claimed")
 
